@@ -424,6 +424,14 @@ func PublishContext[T any](bus *EventBus, ctx context.Context, event T) {
 				if !filterFunc(event) {
 					continue // Skip this handler as event doesn't match filter
 				}
+			} else if fv := reflect.ValueOf(h.filter); fv.Kind() == reflect.Func && fv.Type().NumIn() == 1 && fv.Type().NumOut() == 1 &&
+				fv.Type().Out(0).Kind() == reflect.Bool && eventType.AssignableTo(fv.Type().In(0)) {
+				// The event was published through an interface-typed type parameter
+				// (e.g. PublishContext[any]): the predicate is typed by the subscription's
+				// event type, so call it by reflection, as is done for the handler itself.
+				if !fv.Call([]reflect.Value{reflect.ValueOf(event)})[0].Bool() {
+					continue // Skip this handler as event doesn't match filter
+				}
 			}
 		}
 
